@@ -678,6 +678,10 @@ impl World {
     pub fn check_cost(&mut self, snap: CostSnap, target: ObjId, what: &str) {
         let now = self.cost_snap();
         self.stats.c14_obs += 1;
+        if self.objs[target as usize].table_used {
+            // the object took part in adoptions earlier and has been fully unadopted since
+            self.stats.c14_after_unadopt_obs += 1;
+        }
         if now.traces != snap.traces {
             self.viol(
                 "cost",
